@@ -86,6 +86,64 @@ def refine(mask, op, c, truth):
     return out
 
 
+def _bounds(mask):
+    lo = None
+    hi = None
+    first = True
+    for cls in (NEG, M1, Z, P1, POS):
+        if mask & cls:
+            l, h = _INTERVALS[cls]
+            if first:
+                lo, hi = l, h
+                first = False
+            else:
+                if lo is not None and (l is None or l < lo):
+                    lo = l
+                if hi is not None and (h is None or h > hi):
+                    hi = h
+    return lo, hi, first
+
+
+def rel_refine(ml, mr, op):
+    """Classes of l and r compatible with (l op r)."""
+    if op == '==':
+        both = ml & mr
+        return both, both
+    if op == '!=':
+        # only singletons can be excluded
+        single = (M1, Z, P1)
+        nl, nr = ml, mr
+        if mr in single:
+            nl = ml & ~mr
+        if ml in single:
+            nr = mr & ~ml
+        return nl, nr
+    if op in ('>', '>='):
+        nr, nl = rel_refine(mr, ml, '<' if op == '>' else '<=')
+        return nl, nr
+    # l < r  or l <= r
+    rlo, rhi, rempty = _bounds(mr)
+    llo, lhi, lempty = _bounds(ml)
+    if rempty or lempty:
+        return 0, 0
+    strict = op == '<'
+    nl = 0
+    for cls in (M1, NEG, Z, P1, POS):
+        if ml & cls:
+            lo, hi = _INTERVALS[cls]
+            # exists v in cls, w in r: v < w  <=> min(cls) < max(r)
+            if rhi is None or lo is None or (lo < rhi if strict else lo <= rhi):
+                nl |= cls
+    nr = 0
+    for cls in (M1, NEG, Z, P1, POS):
+        if mr & cls:
+            lo, hi = _INTERVALS[cls]
+            # exists w in cls, v in l: v < w <=> min(l) < max(cls)
+            if hi is None or llo is None or (llo < hi if strict else llo <= hi):
+                nr |= cls
+    return nl, nr
+
+
 def neg_mask(m):
     out = 0
     if m & M1:
@@ -172,6 +230,11 @@ class Rule(object):
 
     def adjust_tracked(self, fn, default, eligible):
         return default
+
+    def filter_call_results(self, ctx, call, ts_in, results):
+        """results: list of (ts_out, mask, origins, env).  Return a replacement
+        list or None."""
+        return None
 
     def call_clobbers(self, call, path):
         return True
@@ -474,6 +537,8 @@ class Engine(object):
                     target = a.a[1]
                     op = {'<': '>', '>': '<', '<=': '>=', '>=': '<=', '==': '==', '!=': '!='}[a.op]
                     c = single[ml]
+                else:
+                    return self.refine_relational(a, label, env, callvals, ctx, ml, mr)
         else:
             target, op, c = a, '!=', 0
         if target is None:
@@ -536,6 +601,43 @@ class Engine(object):
                     refined.extend(r2)
             else:
                 refined.append((t, origins, before, after))
+        return True, new_env, refined
+
+    def refine_relational(self, a, label, env, callvals, ctx, ml, mr):
+        """x OP y with neither side constant: refine both sides on the class
+        level using the other side's bounds."""
+        op = a.op if label else {'<': '>=', '<=': '>', '>': '<=', '>=': '<', '==': '!=', '!=': '=='}[a.op]
+        new_l, new_r = rel_refine(ml, mr, op)
+        if new_l == 0 or new_r == 0:
+            return False, env, []
+        refined = []
+        new_env = env
+        for side, before, after in ((a.a[0], ml, new_l), (a.a[1], mr, new_r)):
+            t = side
+            exact = True
+            while True:
+                if t.k == 'cast':
+                    if t.op == 'IntegralCast' and is_unsigned_type(t.t, t.dt):
+                        inner_m, _ = self.eval(t.a[0], env, callvals, ctx)
+                        if inner_m & NEGATIVE:
+                            exact = False
+                    t = t.a[0]
+                    continue
+                if t.k == 'bin' and t.op == '=':
+                    t = t.a[0]
+                    continue
+                break
+            if not exact or after == before:
+                continue
+            _, origins = self.eval(side, env, callvals, ctx)
+            if t.k == 'var' and t.decl in new_env:
+                new_env = dict(new_env)
+                new_env[t.decl] = (after, origins)
+                refined.append((t, origins, before, after))
+            elif t.k == 'call':
+                refined.append((t, origins, before, after))
+                if callvals is not None:
+                    callvals[t.uid] = (after, origins)
         return True, new_env, refined
 
     # ------------------------------------------------------------ node transfer
@@ -640,14 +742,10 @@ class Engine(object):
             out.append((ts, m, frozenset([x]), env2))
         if not fs and not exs:
             out.append((ts, default_mask(call), frozenset([name]), env2))
-        # merge identical (ts, env) entries by or-ing masks where a split by
-        # return class is not needed?  Keep split: path sensitivity on results.
-        split = []
-        for ts_o, mask, org, e2 in out:
-            # split the mask into failure-relevant classes so that a later test
-            # on the result correlates with the typestate the callee left
-            split.append((ts_o, mask, org, e2))
-        return split
+        org_tag = frozenset(['%s@%s' % (name, call.uid)])
+        out = [(ts_o, mask, org | org_tag, e2) for ts_o, mask, org, e2 in out]
+        out2 = rule.filter_call_results(ctx, call, ts, out)
+        return out2 if out2 is not None else out
 
     _plain = None
 
@@ -791,9 +889,16 @@ class Engine(object):
                     rec['returns'].append((node, mask, ts3, here))
         # states that reach the exit node did so by falling off the end
         # (return nodes record their result above and are not propagated)
-        for ts, envk in states.get(g.exit.id, ()):
-            results.add((ts, TOP))
-            rec['returns'].append((g.exit, TOP, ts, (g.exit.id, (ts, envk))))
+        fall = Z if fn.name == 'main' else TOP
+        for ts, envk in list(states.get(g.exit.id, ())):
+            ctx.node = g.exit
+            ctx.env = dict(envk)
+            ctx.callvals = {}
+            ts2 = rule.on_return(ctx, g.exit, fall, ts)
+            if ts2 is None:
+                continue
+            results.add((ts2, fall))
+            rec['returns'].append((g.exit, fall, ts2, (g.exit.id, (ts, envk))))
         return results
 
     def coerce_return(self, fn, e, mask):
